@@ -410,10 +410,10 @@ def run_shard(sh):
             sh.inconclusive.append('history %d: %s %s' % (j, status, str(res)[:300]))
             continue
         texts, mutated, g0, g1, changed = res
+        label = lambda k: k if isinstance(k, str) else names[k]
         if changed:
             sh.violation('shared-constant-mutated', 'module-level document constants changed during a history: %r' % changed[:5], {'history': [label(i) for i in order][:50], 'position': None})
         applied = []
-        label = lambda k: k if isinstance(k, str) else names[k]
         for pos, i in enumerate(order):
             if isinstance(i, str):
                 applied.append(i)
